@@ -233,6 +233,15 @@ def main(argv=None):
         m_ = textmodel.model_from_items(c_.captured)
         core.guarded(rep, text, check_model, rep, drv, gen, rng, m_, text, c_, with_jax=False, with_c=False)
         rep.case(key=text, nontrivial=True)
+    # ---- directed: more states than one decimal digit counts (slots 10, 11, 12 ... next to 1, 2), each with its own rate; numpy, jax and C
+    big = 13
+    text = ("states(" + ", ".join(f"s{i}={0.25 * (i + 1)}" for i in range(big)) + ")\nparameters(k=0.5, g=0.1)\n"
+            + "total = " + " + ".join(f"s{i}" for i in range(big)) + "\n"
+            + "".join(f"ds{i}_dt = -{i + 1}*s{i} + g*s{(i + 1) % big} + k\n" for i in range(big)))
+    c_ = pipeline.Case(drv, text)
+    m_ = textmodel.model_from_items(c_.captured)
+    core.guarded(rep, text, check_model, rep, drv, gen, rng, m_, text, c_, with_jax=True, with_c=True)
+    rep.case(key=text, nontrivial=True)
     # ---- directed: a state that no expression reads and whose name the step function uses for itself (the step assigns
     # every state, read or not): the text is either refused or stepped like any other model, with and without remove_unused
     for name in ("dt", "t", "time", "states", "parameters", "values", "acc"):
@@ -286,7 +295,7 @@ def main(argv=None):
         level="proof",
         rule="random accepted models; non-trivial = at least two states (slot order matters); per model 3 points x dt in "
              "{0, 2^-40, 1, -0.5, 2^20, 1/16}; 5 scheme-name requests in random history with random argument orders called "
-             "positionally; jax on every 8th and C (gcc) on every 4th model in the quick tier; directed: an unread state named dt / t / time / "
+             "positionally; jax on every 8th and C (gcc) on every 4th model in the quick tier; directed: a model with 13 states (numpy, jax, C); an unread state named dt / t / time / "
              "states / parameters / values, with and without remove_unused (refused, or stepped correctly)",
         trusted_base=["Coq 8.16.1 kernel", "extraction + ocaml/driver.ml", "harness skeleton exporter", "gcc, ctypes, jax as executors"],
         assumptions=["numpy evaluates s + dt*f and dt*f + s identically (IEEE commutativity)"],
